@@ -1,6 +1,9 @@
 package sx
 
 import (
+	"bytes"
+	"encoding/base64"
+	"encoding/json"
 	"fmt"
 	"go/types"
 	"reflect"
@@ -318,6 +321,18 @@ func (in *Interp) jsonUnmarshal(n *jnode, t types.Type, p *Value) string {
 				*p = Slice{A: cp}
 				return ""
 			case 's':
+				if sv, ok := n.val.(Str); ok && sv.IsConc() {
+					raw, err := base64.StdEncoding.DecodeString(sv.S)
+					if err != nil {
+						return "illegal base64 data in JSON string"
+					}
+					out := make([]Value, len(raw))
+					for i, c := range raw {
+						out[i] = mkBV(8, uint64(c))
+					}
+					*p = Slice{A: out}
+					return ""
+				}
 				panic(inconclusive{"json.Unmarshal of a JSON string into []byte (base64 decoding of non-model text)"})
 			}
 			return "json: cannot unmarshal into []byte"
@@ -399,7 +414,16 @@ func init() {
 		dst := a[1].(Iface)
 		n := in.jsonFromToken(data)
 		if n == nil {
-			return in.errorValue("invalid character in JSON input (not produced by the JSON model)")
+			// concrete text (a row written by something else, a corrupted column): parsed for real
+			txt, conc := concreteBytes(data)
+			if !conc {
+				return in.errorValue("invalid character in JSON input (not produced by the JSON model)")
+			}
+			var perr string
+			n, perr = jsonParseText(txt)
+			if n == nil {
+				return in.errorValue(perr)
+			}
 		}
 		pt, ok := dst.T.Underlying().(*types.Pointer)
 		if !ok || dst.V.(*Value) == nil {
@@ -417,4 +441,85 @@ func init() {
 		}
 		return Str{S: n.shape()}
 	}
+}
+
+func concreteBytes(b Slice) ([]byte, bool) {
+	out := make([]byte, len(b.A))
+	for i, e := range b.A {
+		bv, ok := e.(BV)
+		if !ok || bv.T != nil {
+			return nil, false
+		}
+		out[i] = byte(bv.C)
+	}
+	return out, true
+}
+
+// jsonParseText parses concrete JSON text with the host's decoder (member order and duplicates preserved) into the
+// model's tree; the error text is the host's.
+func jsonParseText(txt []byte) (*jnode, string) {
+	var probe interface{}
+	if err := json.Unmarshal(txt, &probe); err != nil {
+		return nil, err.Error()
+	}
+	dec := json.NewDecoder(bytes.NewReader(txt))
+	dec.UseNumber()
+	var val func() *jnode
+	val = func() *jnode {
+		tok, err := dec.Token()
+		if err != nil {
+			return nil
+		}
+		switch t := tok.(type) {
+		case nil:
+			return &jnode{kind: 'z'}
+		case bool:
+			return &jnode{kind: 'b', val: Bool{C: t}}
+		case string:
+			return &jnode{kind: 's', val: Str{S: t}}
+		case json.Number:
+			if i, err := strconv.ParseInt(string(t), 10, 64); err == nil {
+				return &jnode{kind: 'n', val: mkBV(64, uint64(i))}
+			}
+			f, _ := t.Float64()
+			return &jnode{kind: 'n', val: Float{F: f}}
+		case json.Delim:
+			switch t {
+			case '[':
+				n := &jnode{kind: 'a'}
+				for dec.More() {
+					e := val()
+					if e == nil {
+						return nil
+					}
+					n.elems = append(n.elems, e)
+				}
+				dec.Token()
+				return n
+			case '{':
+				n := &jnode{kind: 'o'}
+				for dec.More() {
+					k, err := dec.Token()
+					ks, ok := k.(string)
+					if err != nil || !ok {
+						return nil
+					}
+					e := val()
+					if e == nil {
+						return nil
+					}
+					n.names = append(n.names, ks)
+					n.fields = append(n.fields, e)
+				}
+				dec.Token()
+				return n
+			}
+		}
+		return nil
+	}
+	n := val()
+	if n == nil {
+		return nil, "invalid JSON text"
+	}
+	return n, ""
 }
